@@ -150,6 +150,17 @@ def sibling_sequences(tier):
                     for b in cf:
                         if a != b:
                             seqs.append([cf[a], cf[b]])
+    # the same class and size under another cost vector (what a table or a pre-pass cached per size forgets)
+    for n in range(3, N + 3):
+        for sx in (1, 2):
+            for c in fam + ("HRevolve",):
+                for ca, cb in (([8, 8, 16, 16], [32, 8, 16, 16]), ([8, 8, 16, 16], [8, 8, 64, 64]), ([8, 8, 16, 16], [8, 8, 0, 0]), ([8, 32, 4, 4], [8, 8, 16, 16])):
+                    a = {"cls": c, "n": n, "s": sx, "c8": ca, "passes": 1}
+                    b = {"cls": c, "n": n, "s": sx, "c8": cb, "passes": 1}
+                    if c == "HRevolve":
+                        a["d"] = b["d"] = 1
+                    seqs.append([a, b])
+                    seqs.append([b, a])
     for n in range(3, N + 1):
         for tot in (2, 3, 4):
             for tr in ("maximum", "revolve"):
@@ -246,7 +257,7 @@ def run(prop, args):
                     else:
                         rep.add_violation((C.variant(r["cfg"]), pred), {"sequence": seq[:i + 1]}, detail + " [after %s in the same process]" % C.describe(seq[0]), kind="sequence")
     rep.extra["sibling_sequences"] = len(seq_results) - len(list(C.large_n_probes(args.tier)))
-    rep.exhaustive.append({"box": "ordered sibling pairs (equal parameters, other Revolve-family class; other RAM/DISK split, storage, trajectory, period, unit count), each pair in one pristine process",
+    rep.exhaustive.append({"box": "ordered sibling pairs (equal parameters, other Revolve-family class; same class and size under another cost vector; other RAM/DISK split, storage, trajectory, period, unit count), each pair in one pristine process",
                            "cases": len(seq_results) - len(list(C.large_n_probes(args.tier))), "exhaustive": True})
     R.run_regress(rep, lambda data: check_witness(prop, data))
     if not rep.samples:
